@@ -16,7 +16,7 @@ theorem toPend_coCall (w : World) (o f : Nat) (tag : String) (delay : Int) :
 theorem coCot_ge (w : World) : w.cot ≤ coCot w := by
   unfold coCot; split <;> omega
 
-theorem sim_co {tick : Bool} {w : World} {j : JState} (hw : WheelInv w) (h : SimJ tick w j)
+theorem sim_co {tick : Bool} {w : World} {j : JState} (_hw : WheelInv w) (h : SimJ tick w j)
     (self fn : Nat) (delay : Int) (tag : String) (halive : isDead w self = false) :
     SimJ tick { (newCallOut w self fn tag delay).1 with
                 hmap := ((self, tag), (newCallOut w self fn tag delay).2) :: (newCallOut w self fn tag delay).1.hmap }
